@@ -312,6 +312,27 @@ pub mod api {
     });
 
     noalloc_harness!(
+        /// iterator-backed sources whose iterator OWNS heap memory (vec::IntoIter): running into and past
+        /// the end of the data must neither allocate nor FREE - the storage is released when the signal is dropped
+        sources_owning_heap_iterators, 8, {
+        let frames: Vec<[i16; 2]> = vec![[1, 2], [3, 4], [5, 6]];
+        let samples: Vec<i16> = vec![1, 2, 3, 4, 5];
+        let mut fi = signal::from_iter(frames.into_iter());
+        let mut fs = signal::from_interleaved_samples_iter::<_, [i16; 2]>(samples.into_iter());
+        let frees_before = unsafe { FREES };
+        steady();
+        for _ in 0..5 {
+            let _ = (fi.next(), fs.next(), fi.is_exhausted(), fs.is_exhausted());
+        }
+        unsteady();
+        assert!(unsafe { FREES } == frees_before);
+        drop(fi);
+        drop(fs);
+        assert!(unsafe { FREES } == frees_before + 2, "the iterators' storage is released when the signals are dropped");
+        kani::cover!(true, "end");
+    });
+
+    noalloc_harness!(
         /// every adaptor, stacked; take / until_exhausted / interleaved output
         adaptors, 8, {
         let mut a: Probe<i16, 4> = Probe::new([small_i16(), small_i16(), small_i16(), small_i16()], { let l: usize = kani::any(); kani::assume(l <= 4); l });
